@@ -164,7 +164,7 @@ def run(ctx):
     from sa.dataflow import ReachingDefs, depends_on
     rd = ReachingDefs(lsv)
     loads = [(n, c) for (n, c) in v.calls(lambda c: call_name(c) == "_load_schema_version")]
-    ctx.floor("R13.3", "_load_schema_version calls in load_schema_version", len(loads), 2)
+    ctx.floor("R13.3", "_load_schema_version calls in load_schema_version", len(loads), 1)
     list_loads = 0
     for n, c in loads:
         # inside a comprehension over the parsed versions, or dominated by the list test
